@@ -2296,3 +2296,113 @@ func onlyErrorText(v ssa.Value, depth int) bool {
 	}
 	return n > 0
 }
+
+// SQL-RESCAN (C02/C08): no text of the query is inserted at a place found by searching text of the query.
+func ruleSQLRESCAN(c *Ctx, r *Report) {
+	const rule = "SQL-RESCAN"
+	r.doc(rule, "in the driver package every strings.Replace / ReplaceAll (and every strings.NewReplacer) either searches a constant text or inserts a constant: computed text (a rendered operand, a serialised value) is never put at a position that was found by scanning other computed text — a marker such as ? or {right} can occur inside a quoted value or a column name, and filling it there moves user text out of its quotes")
+	n := 0
+	// constant text: a constant, one of several constants, or a parameter / captured variable that every
+	// caller / closure site in the module binds to such a text (a template handed to a filling helper)
+	var isConst func(v ssa.Value, depth int) bool
+	isConst = func(v ssa.Value, depth int) bool {
+		if _, ok := c.constStringSet(v, 0); ok {
+			return true
+		}
+		if depth > 8 {
+			return false
+		}
+		switch x := c.resolve(v, nil).(type) {
+		case *ssa.BinOp:
+			return x.Op == token.ADD && isConst(x.X, depth+1) && isConst(x.Y, depth+1)
+		case *ssa.Call:
+			// the name of an operator or token type: one of finitely many texts fixed in the source
+			if g := x.Call.StaticCallee(); g != nil && inModule(g) && g.Name() == "String" && g.Signature.Recv() != nil {
+				if b, isBasic := g.Signature.Recv().Type().Underlying().(*types.Basic); isBasic && b.Info()&types.IsInteger != 0 {
+					return true
+				}
+			}
+			return false
+		case *ssa.Parameter:
+			idx := -1
+			for i, p := range x.Parent().Params {
+				if p == x {
+					idx = i
+				}
+			}
+			sites, private := c.privateHelper(x.Parent())
+			if !private || len(sites) == 0 {
+				return false
+			}
+			for _, call := range sites {
+				if idx >= len(call.Call.Args) || !isConst(call.Call.Args[idx], depth+1) {
+					return false
+				}
+			}
+			return true
+		case *ssa.FreeVar:
+			idx := -1
+			for i, fv := range x.Parent().FreeVars {
+				if fv == x {
+					idx = i
+				}
+			}
+			sites := 0
+			for _, g := range c.Funcs {
+				for _, b := range g.Blocks {
+					for _, in := range b.Instrs {
+						if mc, ok := in.(*ssa.MakeClosure); ok && mc.Fn == ssa.Value(x.Parent()) && idx < len(mc.Bindings) {
+							sites++
+							if !isConst(mc.Bindings[idx], depth+1) {
+								return false
+							}
+						}
+					}
+				}
+			}
+			return sites > 0
+		}
+		return false
+	}
+	for _, f := range c.Funcs {
+		if fnPkgPath(f) != pkgDriver {
+			continue
+		}
+		for _, b := range f.Blocks {
+			for _, in := range b.Instrs {
+				call, ok := in.(*ssa.Call)
+				if !ok {
+					continue
+				}
+				name := calleeFullName(call)
+				args := call.Call.Args
+				switch name {
+				case "strings.Replace", "strings.ReplaceAll", "bytes.Replace", "bytes.ReplaceAll":
+					n++
+					key := fmt.Sprintf("%s|%s(%s)", fnName(f), name, c.key(args[1], nil))
+					if isConst(args[0], 0) || isConst(args[2], 0) {
+						r.ok(rule, key, c.instrPos(in), "constant subject or constant replacement")
+					} else {
+						r.bad(rule, key, c.instrPos(in), fmt.Sprintf("%s replaces %s inside computed text (%s) by computed text (%s): when the searched marker also occurs in a value or a column name of the query, the inserted text lands inside or outside the wrong quotes", fnName(f), c.key(args[1], nil), c.key(args[0], nil), c.key(args[2], nil)))
+					}
+				case "strings.NewReplacer":
+					n++
+					key := fmt.Sprintf("%s|%s", fnName(f), name)
+					ops, isLit := c.sliceLiteral(args[0], nil)
+					bad := !isLit
+					for i, op := range ops {
+						if i%2 == 1 && !isConst(op, 0) {
+							bad = true
+						}
+					}
+					if bad {
+						r.bad(rule, key, c.instrPos(in), fmt.Sprintf("%s builds a Replacer whose inserted texts are computed: applied to text that contains values of the query, it inserts at positions found by scanning them", fnName(f)))
+					} else {
+						r.ok(rule, key, c.instrPos(in), "constant replacements")
+					}
+				}
+			}
+		}
+	}
+	r.ok(rule, "calls-examined", "-", fmt.Sprintf("%d replace calls in the driver examined", n))
+}
